@@ -16,6 +16,7 @@ EXCL_* switches below remove one construct each from the random workload because
 to deviate on it; they narrow the workload, never the oracle.
 """
 import os
+import re
 
 # --- finding-keyed generator exclusions (False = construct not generated) -------------------------
 EXCL = {
@@ -25,6 +26,7 @@ EXCL = {
     'if-unsigned': (False, 'pp:if-unsigned-arithmetic'),
     'if-stacked-unary': (False, 'pp:if-stacked-unary-operators'),
     'if-ternary-nested': (False, 'pp:if-ternary-right-associativity'),
+    'if-ternary-cond-minus-zero': (False, 'pp:if-ternary-condition-zero-not-spelled-0'),
     'if-eq-rel-precedence': (False, 'pp:if-equality-relational-same-precedence'),
     'if-and-or-precedence': (False, 'pp:if-logical-and-or-same-precedence'),
     'paste-operators': (False, 'pp:paste-forming-operator'),
@@ -35,6 +37,8 @@ EXCL = {
     'lex-shift-space-assign': (False, 'pp:lex-shift-space-assign-merged'),
     'U-of-file-defined-macro': (False, 'pp:U-hides-define-in-file'),
     'duplicate-D': (False, 'pp:duplicate-D-first-wins'),
+    'computed-include': (False, 'pp:computed-include-keeps-comments'),
+    'macro-cycles': (False, 'pp:painted-macro-re-expanded-through-nested-call'),
     'lex-line-starting-with-lt-after-include': (False, 'pp:line-starting-with-lt-after-include'),
 }
 
@@ -127,10 +131,34 @@ class Gen:
         for n in range(0, 3):
             self.fun['V%d_0' % n] = {'n': n, 'variadic': True, 'va_str': rng.random() < 0.5,
                                      'kinds': [rng.choice(['any', 'str', 'paste']) for _ in range(n)]}
-        self._top, self._lastop, self._binflag = None, None, False
+        order = self.num + self.cfg + ['F0_0', 'F0_1', 'F1_0', 'F1_1'] + self.obj + \
+            [f for f in self.fun if f not in ('F0_0', 'F0_1', 'F1_0', 'F1_1')]
+        self.rank = {n: i for i, n in enumerate(order)}
+        self.cur = None                                          # macro whose body is being generated
         self.str_depth = 0                                       # >0 while generating a to-be-stringified argument
         self.numfun = {'SQ': 1, 'ADD': 2, 'MAX': 2}              # numeric function-like (fixed bodies)
         self.f = self.case.features
+
+
+    # ---- pools; while a macro body is generated (self.cur) only lower-ranked macros and the macro itself may be
+    # ---- referenced unless definition cycles are allowed (finding-keyed exclusion 'macro-cycles')
+    def _lower(self, names):
+        if self.cur is None or allowed('macro-cycles'):
+            return list(names)
+        rk = self.rank[self.cur]
+        return [n for n in names if self.rank[n] < rk or n == self.cur]
+
+    def objs(self):
+        return self._lower(self.obj) or [self.ident()]
+
+    def nums(self):
+        return self._lower(self.num) or [self.r.choice(INTS)]
+
+    def cfgs(self):
+        return self._lower(self.cfg) or [self.r.choice(INTS)]
+
+    def funs(self):
+        return self._lower(list(self.fun))
 
     # ------------------------------------------------------------------ atoms
     def ident(self):
@@ -232,11 +260,11 @@ class Gen:
     def any_macro_ref(self):
         r = self.r.random()
         if r < 0.45:
-            return [self.r.choice(self.obj)]
+            return [self.r.choice(self.objs())]
         if r < 0.6:
-            return [self.r.choice(self.num)]
+            return [self.r.choice(self.nums())]
         if r < 0.7:
-            return [self.r.choice(self.cfg)]
+            return [self.r.choice(self.cfgs())]
         return self.call(depth=1)
 
     def arg(self, depth, kind='any', outer=None):
@@ -258,7 +286,7 @@ class Gen:
             if x < 0.75:
                 return [r.choice(INTS[:12])]
             if x < 0.9:
-                return [r.choice(['M', 'N', 'C']) if r.random() < 0.5 else r.choice(self.obj)]
+                return [r.choice(['M', 'N', 'C']) if r.random() < 0.5 else r.choice(self.objs())]
             return [self.ident(), r.choice(['+', '-', '*']), self.ident()]
         x = r.random()
         if x < 0.06:
@@ -273,7 +301,7 @@ class Gen:
             if y < 0.45:
                 out.append(self.atom_noparen())
             elif y < 0.65:
-                out += [r.choice(self.obj + self.num)]
+                out += [r.choice(self.objs() + self.nums())]
             elif y < 0.8 and depth < 3:
                 self.f.add('nested-call-in-arg')
                 out += self.call(depth + 1, outer=outer)
@@ -281,7 +309,7 @@ class Gen:
                 self.f.add('paren-comma-arg')
                 out += ['('] + [self.ident(), ',', self.ident()] + [')']
             elif y < 0.95:
-                out.append(r.choice(list(self.fun)))  # bare function-like name as argument
+                out.append(r.choice(self.funs() or [self.ident()]))  # bare function-like name as argument
                 self.f.add('funname-as-arg')
             else:
                 out.append('"s"' if self.str_depth else r.choice(STRINGS))
@@ -314,13 +342,14 @@ class Gen:
         """token list of a function-like macro invocation"""
         r = self.r
         if name is None:
-            if r.random() < 0.15:
+            cands = self.funs()
+            if r.random() < 0.15 or not cands:
                 name = r.choice(list(self.numfun))
             else:
-                name = r.choice(list(self.fun))
+                name = r.choice(cands)
         if name in self.numfun:
             n = self.numfun[name]
-            args = [[r.choice(INTS + self.num)] for _ in range(n)]
+            args = [[r.choice(INTS + self.nums())] for _ in range(n)]
         else:
             fi = self.fun[name]
             args = [self.arg(depth, fi['kinds'][i], outer) for i in range(fi['n'])]
@@ -356,13 +385,13 @@ class Gen:
             elif x < 0.6:
                 out.append(self.atom_noparen())
             elif x < 0.78:
-                out += [r.choice(self.obj + self.num + self.cfg)]
+                out += [r.choice(self.objs() + self.nums() + self.cfgs())]
             elif x < 0.9 and depth < 2:
                 out += self.call(depth + 1, outer=outer)
             elif x < 0.95:
                 out += ['(', self.atom_noparen(), r.choice(['+', '*', ',']), self.atom_noparen(), ')']
             else:
-                out.append(r.choice(list(self.fun)))   # bare function-like name: may pull in "( ... )" after the macro
+                out.append(r.choice(self.funs() or [self.ident()]))   # bare function-like name: may pull in "( ... )" after the macro
                 self.f.add('bare-funname-in-body')
         return out
 
@@ -370,35 +399,39 @@ class Gen:
     def define_obj(self):
         r = self.r
         name = r.choice(self.obj)
+        self.cur = name
         x = r.random()
         if x < 0.12:
             self.f.add('self-ref-macro')
             body = [self.atom_noparen(), name, self.atom_noparen()] if r.random() < 0.5 else [name, '+', '1']
         elif x < 0.2:
-            self.f.add('mutual-recursion')
-            other = r.choice(self.obj)
+            self.f.add('mutual-recursion' if allowed('macro-cycles') else 'macro-chain')
+            other = r.choice(self.objs())
             body = [other, r.choice(['+', ',', '*']), self.ident()]
         elif x < 0.27:
             body = []
             self.f.add('empty-macro')
         elif x < 0.35:
             # body ends in a function-like macro name: following "(...)" in the text is pulled in
-            body = self.body_tokens(r.randint(0, 2)) + [r.choice(list(self.fun))]
+            body = self.body_tokens(r.randint(0, 2)) + [r.choice(self.funs() or [self.ident()])]
             self.f.add('obj-ends-in-funname')
         else:
             body = self.body_tokens(r.randint(1, 5))
+        self.cur = None
         return self._define_line(name, None, body)
 
     def define_num(self):
         r = self.r
         name = r.choice(self.num)
+        self.cur = name
         x = r.random()
         if x < 0.5:
             body = [r.choice(INTS)]
         elif x < 0.8:
-            body = ['(', r.choice(INTS + self.num), r.choice(['+', '-', '*', '<<', '|', '&']), r.choice(INTS[:8]), ')']
+            body = ['(', r.choice(INTS + self.nums()), r.choice(['+', '-', '*', '<<', '|', '&']), r.choice(INTS[:8]), ')']
         else:
             body = self.call(name=r.choice(list(self.numfun)))
+        self.cur = None
         return self._define_line(name, None, body)
 
     NUMFUN_PRELUDE = ['#define SQ(x) ((x)*(x))', '#define ADD(x,y) ((x)+(y))', '#define MAX(x,y) ((x)>(y)?(x):(y))']
@@ -406,6 +439,7 @@ class Gen:
     def define_fun(self):
         r = self.r
         name = r.choice(list(self.fun))
+        self.cur = name
         fi = self.fun[name]
         n, variadic, kinds = fi['n'], fi['variadic'], fi['kinds']
         pnames = ['p%d' % i for i in range(n)] if r.random() < 0.7 else ['a', 'b', 'c'][:n]
@@ -439,6 +473,7 @@ class Gen:
             else:
                 body += self.body_tokens(r.randint(1, 3), tuple(pnames), depth=1, variadic=variadic, outer=outer)
         params = list(pnames) + (['...'] if variadic else [])
+        self.cur = None
         return self._define_line(name, params, body)
 
     def paste(self, pastable):
@@ -451,6 +486,8 @@ class Gen:
             if pastable and x < 0.6:
                 return r.choice(pastable)
             if x < 0.8 or side == 'L':
+                if self.cur is not None and not allowed('macro-cycles') and self.rank[self.cur] < self.rank['M0']:
+                    return r.choice(['N', 'C', 'x', 'foo', 'pre_'])     # a pasted name must not close a cycle
                 return r.choice(['M', 'N', 'C', 'x', 'foo', 'F1_', 'pre_'])
             return r.choice(['0', '1', '2', '_t', 'x'])
         if r.random() < 0.08 and allowed('paste-operators'):
@@ -487,26 +524,40 @@ class Gen:
     EQ = ('==', '!=')
 
     def expr(self, depth=0, nodef=False):
-        e = self._expr(depth, nodef)
-        # _top = operator at the top of e if e is an unparenthesised binary expression
-        self._top = self._lastop if self._binflag else None
-        self._binflag = False
-        return e
+        return self._expr(depth, nodef)
 
-    def _operand(self, depth, nodef, op):
-        """operand of binary `op`; parenthesised where cppcheck is known to apply a wrong precedence"""
-        e = self.expr(depth, nodef)
-        top = self._top
-        self._top = None
+    _OPRE = re.compile(r'<<|>>|<=|>=|==|!=|&&|\|\||[-+*/%<>&^|?:]')
+
+    @classmethod
+    def _exposed_ops(cls, e):
+        """binary operators of e outside any parentheses"""
+        d, out, i = 0, set(), 0
+        flat = []
+        for ch in e:
+            if ch == '(':
+                d += 1
+            elif ch == ')':
+                d -= 1
+            flat.append(ch if d == 0 and ch not in '()' else ' ')
+        for m in cls._OPRE.finditer(''.join(flat)):
+            out.add(m.group())
+        return out
+
+    def _binary(self, a, op, b):
+        """a op b; operands are parenthesised where cppcheck is known to apply a wrong precedence"""
+        oa, ob = self._exposed_ops(a), self._exposed_ops(b)
+        ops = oa | ob | {op}
         wrap = False
-        if top is not None:
-            if not allowed('if-eq-rel-precedence'):
-                wrap |= (op in self.EQ and top in self.REL) or (op in self.REL and top in self.EQ)
-            if not allowed('if-and-or-precedence'):
-                wrap |= op in ('&&', '||') and top in ('&&', '||') and top != op
-            if not wrap:
-                self.f.add('if-unparenthesised-precedence')
-        return '(' + e + ')' if wrap else e
+        if not allowed('if-eq-rel-precedence'):
+            wrap |= bool(ops & set(self.EQ)) and bool(ops & set(self.REL))
+        if not allowed('if-and-or-precedence'):
+            wrap |= '&&' in ops and '||' in ops
+        if wrap:
+            a = '(' + a + ')' if oa else a
+            b = '(' + b + ')' if ob else b
+        elif oa or ob:
+            self.f.add('if-unparenthesised-precedence')
+        return '%s %s %s' % (a, op, b)
 
     def _expr(self, depth=0, nodef=False):
         r = self.r
@@ -549,7 +600,10 @@ class Gen:
             if r.random() < 0.3 and allowed('if-ternary-nested'):
                 self.f.add('if-ternary-nested')
                 return '(%s ? %s : %s ? %s : %s)' % tuple(self.expr(depth + 2, nodef) for _ in range(5))
-            return '(%s ? %s : %s)' % (self.expr(depth + 1, nodef), self.expr(depth + 1, nodef), self.expr(depth + 1, nodef))
+            cond = self.expr(depth + 1, nodef)
+            if cond.lstrip('( ')[:1] == '-' and not allowed('if-ternary-cond-minus-zero'):
+                cond = r.choice(INTS + self.num)
+            return '(%s ? %s : %s)' % (cond, self.expr(depth + 1, nodef), self.expr(depth + 1, nodef))
         if x < 0.70:
             self.f.add('if-short-circuit')
             if r.random() < 0.5 and allowed('if-short-circuit-div0'):
@@ -569,10 +623,7 @@ class Gen:
         if x < 0.87:
             return '(%s %s %s)' % (self.expr(depth + 1, nodef), r.choice(['<<', '>>']), r.choice(['0', '1', '2', '3', '5']))
         op = r.choice(['+', '-', '*', '<', '>', '<=', '>=', '==', '!=', '&', '^', '|', '&&', '||'])
-        a = self._operand(depth + 1, nodef, op)
-        b = self._operand(depth + 1, nodef, op)
-        self._lastop, self._binflag = op, True
-        return '%s %s %s' % (a, op, b)
+        return self._binary(self.expr(depth + 1, nodef), op, self.expr(depth + 1, nodef))
 
     def expr_prim(self, depth, nodef=False):
         e = self.expr(depth, nodef)
@@ -786,10 +837,14 @@ class Gen:
                 v = name + '='
                 self.f.add('D-empty-value')
             elif x < 0.92 and name in self.obj:
+                self.cur = name
                 v = '%s=%s' % (name, self.join(self.body_tokens(r.randint(1, 3))))
+                self.cur = None
                 self.f.add('D-token-list')
             else:
-                v = '%s=%s' % (name, r.choice(self.num + self.cfg))
+                self.cur = name
+                v = '%s=%s' % (name, r.choice(self.nums() + self.cfgs()))
+                self.cur = None
                 self.f.add('D-macro-chain')
             if ';' in v:
                 v = '%s=%s' % (name, r.choice(INTS))   # ';' separates defines inside cppcheck (documented)
